@@ -308,7 +308,7 @@ HARNESSES = {
 META = {
     "manifest": {
         "text": "Bounded symbolic model checking of the implementation: ribosome.py is loaded from its current source through a purely syntactic transformer (str(), .replace, .join, `in`, subscripts, .get and f-strings rerouted to helpers that keep symbolic strings symbolic; `re` replaced by a symbolic backtracking matcher driven by CPython's own regex parse) and Ribosome.synthesize runs on a catalogue of templates over every documented construct with the BOUND VALUES, LOOP ITEMS as symbolic strings (z3 code points over the alphabet `{ } | # / > ? . a b space`). The rendered cells are compared, as a z3 query, with a reference that expands the template's AST once, left to right, emitting values verbatim: first with delimiter-free values (clause a), then with unconstrained values (opacity, clause b). The instrumented copy is differentially tested against the real module, and the symbolic regex against `re`, in the same run.",
-        "note": "Trusted: z3, CPython, SymX (SStr, symbolic regex, the syntactic transformer - validated per run). Value length <= 2-3 (quick) / 3-4 (thorough) cells, <= 2 symbolic strings per template, 15 templates; filters title/json/repr/length and dict items are exercised on concrete values only. Opacity used to fail through loop items, filtered/optional/defaulted values and includes (K-C12-1..3); repaired in /repo 67d2cc2 (value parking), so clause b is asserted for every entry construct with no excused region.",
+        "note": "Trusted: z3, CPython, SymX (SStr, symbolic regex, the syntactic transformer - validated per run). Value length <= 2-3 (quick) / 3-4 (thorough) cells, <= 3 symbolic strings per template; filters title/json/repr/length and dict items are exercised on concrete values only. Opacity used to fail through loop items, filtered/optional/defaulted values and includes (K-C12-1..3); repaired in /repo 67d2cc2 (value parking), so clause b is asserted for every entry construct with no excused region.",
         "technique": "symbolic-string execution of an instrumented import of ribosome.py with a symbolic regex engine; z3 cell-wise equality against a single-pass reference renderer over the generator's AST",
     },
     "files": ["operon_ai/organelles/ribosome.py"],
